@@ -398,6 +398,8 @@ func c19Child(args []string) int {
 	switch args[0] {
 	case "race":
 		return raceChild(args[1], args[2], args[3])
+	case "cold":
+		return coldChild(args[1], args[2], args[3])
 	case "history":
 		seed, _ := strconv.ParseUint(args[1], 10, 64)
 		res := historyDigests(seed, 1, 1) // a fresh process starts with a DIFFERENT order than the parent
@@ -406,6 +408,131 @@ func c19Child(args []string) int {
 		return 0
 	}
 	return 2
+}
+
+// coldChild: the FIRST calls this process ever makes into one ecosystem package (and into vers) are made by 8
+// goroutines at once - nothing is parsed beforehand, the candidate strings come straight from the generators. Lazy
+// initialisation on first use (package-level tables, compiled patterns, sync-free "if x == nil { x = ... }") is
+// exercised only here: any earlier sequential call, even the harness building its shared values, closes the window.
+func coldChild(name, seedS, out string) int {
+	seed, _ := strconv.ParseUint(seedS, 10, 64)
+	r := core.Rand(seed, "C19", "cold", name)
+	res := &raceResult{ByOp: map[string]int64{}}
+	var vs, rs, vt []string
+	for len(vs) < 160 {
+		if r.IntN(2) == 0 {
+			vs = append(vs, gen.Cluster(name, r)...)
+		} else {
+			vs = append(vs, gen.One(name, r))
+		}
+	}
+	vs = vs[:160]
+	for len(rs) < 48 {
+		rs = append(rs, gen.RangeOne(name, r))
+	}
+	for sc, en := range SchemeEco {
+		if en == name {
+			for k := 0; k < 24; k++ {
+				a, b := vs[r.IntN(len(vs))], vs[r.IntN(len(vs))]
+				if embeddable(a) && embeddable(b) {
+					vt = append(vt, "vers:"+sc+"/"+versOps[r.IntN(6)]+a+"|"+versOps[r.IntN(6)]+b)
+				}
+			}
+		}
+	}
+	sort.Strings(vt)
+	e := eco.ByName(name)
+	type rec struct{ key, val string }
+	const G = 8
+	run := func(g int, e *eco.Eco) []rec {
+		var out []rec
+		do := func(key string, f func() string) {
+			defer func() {
+				if p := recover(); p != nil {
+					out = append(out, rec{key, fmt.Sprint("panic: ", p)})
+				}
+			}()
+			out = append(out, rec{key, f()})
+		}
+		var prev eco.Ver
+		for i, s := range vs {
+			if i >= 8 && i%G != g { // the first 8 candidates are everybody's, the rest is split
+				continue
+			}
+			s := s
+			do("NewVersion|"+s, func() string {
+				v, err := e.NewVersion(s)
+				if err != nil || v == nil {
+					return "rejected"
+				}
+				st := v.String()
+				if prev != nil {
+					st += "|" + strconv.Itoa(v.Compare(prev))
+				}
+				prev = v
+				return st
+			})
+		}
+		for i, s := range rs {
+			if i >= 4 && i%G != g {
+				continue
+			}
+			s := s
+			do("Range|"+s, func() string {
+				rg, err := e.NewRange(s)
+				if err != nil || rg == nil {
+					return "rejected"
+				}
+				st := rg.String()
+				if prev != nil {
+					st += "|" + strconv.FormatBool(rg.Contains(prev))
+				}
+				return st
+			})
+		}
+		for i, s := range vt {
+			if i >= 4 && i%G != g {
+				continue
+			}
+			s := s
+			do("Vers|"+s, func() string {
+				ok, err, pn := eco.SafeVersContains(s, vs[i%len(vs)])
+				if pn != nil {
+					return "panic: " + pn.Value
+				}
+				return strconv.FormatBool(ok) + ":" + strconv.FormatBool(err == nil)
+			})
+		}
+		return out
+	}
+	results := make([][]rec, G)
+	barrier := make(chan struct{})
+	var wg sync.WaitGroup
+	for g := 0; g < G; g++ {
+		wg.Add(1)
+		go func(g int) {
+			defer wg.Done()
+			<-barrier
+			results[g] = run(g, e)
+		}(g)
+	}
+	close(barrier)
+	wg.Wait()
+	// sequential reference (the process is warm now)
+	for g := 0; g < G; g++ {
+		want := run(g, eco.ByName(name))
+		for k := range want {
+			res.Ops++
+			res.ByOp["cold:"+strings.SplitN(want[k].key, "|", 2)[0]]++
+			if k < len(results[g]) && results[g][k].val != want[k].val && len(res.Mismatches) < 10 {
+				res.Mismatches = append(res.Mismatches, core.Violation{Eco: name, Op: "cold-start", Args: []string{want[k].key}, Rule: "result-differs-when-first-calls-are-concurrent", Got: results[g][k].val, Want: want[k].val})
+			}
+		}
+	}
+	res.Rounds, res.Done = 1, true
+	b, _ := json.Marshal(res)
+	os.WriteFile(out, b, 0o644)
+	return 0
 }
 
 func raceChild(tier, seedS, out string) int {
@@ -923,6 +1050,68 @@ func runC19(c *core.Ctx, ck *Check) {
 					}
 				}
 			}(name)
+		}
+		wg.Wait()
+	}
+	// cold-start children: one fresh race-build process per ecosystem and repetition whose first library calls are
+	// concurrent (coldChild)
+	{
+		names := eco.Names()
+		var wg sync.WaitGroup
+		var mu sync.Mutex
+		sem := make(chan struct{}, 12)
+		for rep := 0; rep < c.Scale(3, 24); rep++ {
+			for _, name := range names {
+				wg.Add(1)
+				go func(name string, rep int) {
+					defer wg.Done()
+					sem <- struct{}{}
+					defer func() { <-sem }()
+					out := filepath.Join(dir, fmt.Sprintf("cold-%s-%d.json", name, rep))
+					logp := filepath.Join(dir, fmt.Sprintf("coldlog-%s-%d", name, rep))
+					cmd := exec.Command("timeout", "-s", "QUIT", "300", raceBin, "C19", "--child", "cold", name, strconv.FormatUint(c.Seed+uint64(rep)*7919, 10), out)
+					cmd.Env = append(os.Environ(), "GORACE=halt_on_error=0 log_path="+logp, "GOMAXPROCS=8")
+					ef, _ := os.Create(out + ".stderr")
+					cmd.Stderr = ef
+					err := cmd.Run()
+					ef.Close()
+					mu.Lock()
+					defer mu.Unlock()
+					var rr raceResult
+					if b, e2 := os.ReadFile(out); e2 == nil {
+						json.Unmarshal(b, &rr)
+					}
+					w.Count("evaluations", rr.Ops)
+					w.Count("cold_start_processes", 1)
+					w.Count("cold_start_ops", rr.Ops)
+					for k, v := range rr.ByOp {
+						w.Count("race_ops:"+k, v)
+					}
+					w.NT(core.Hash64("cold", name, itoa(rep)))
+					for _, v := range rr.Mismatches {
+						w.Report(v)
+					}
+					nrep, dd := parseRaceLogs(logp + ".*")
+					totalReports += nrep
+					for k, v := range dd {
+						if _, ok := allDedup[k]; !ok {
+							allDedup[k] = v
+							w.Report(core.Violation{Eco: name, Op: "race", Args: []string{k, "cold-start"}, Rule: "data-race", Got: trunc(v, 3000), Want: "no DATA RACE report"})
+						}
+					}
+					if !rr.Done {
+						eb, _ := os.ReadFile(out + ".stderr")
+						es := string(eb)
+						switch {
+						case strings.Contains(es, "fatal error:") || strings.Contains(es, "panic:"):
+							w.Report(core.Violation{Eco: name, Op: "race", Args: []string{"cold-start process died"}, Rule: "runtime-fatal-error", Got: trunc(es, 3000)})
+						case nrep > 0:
+						default:
+							c.Inconclusive(fmt.Sprintf("cold-start child for %s did not finish (%v): %s", name, err, trunc(es, 300)))
+						}
+					}
+				}(name, rep)
+			}
 		}
 		wg.Wait()
 	}
